@@ -5,7 +5,10 @@ import Spec.Cli
 import Proofs.Lemmas.ExcTrace
 import Proofs.Lemmas.ExcOnce
 import Proofs.Lemmas.ExcRefine
+import Proofs.Lemmas.ExcIter
 import Proofs.Lemmas.HierGraph
+import Model.ExcPairs
+import Generated.C05Pairs
 /-!
 # C05 — first matching catch, finally exactly once, uncaught errors fail the process
 
@@ -223,6 +226,111 @@ theorem C05_reentrant_return (G : Graph) (cfg : Cfg) (hg : cfg.guarded = true) (
     exact C05_reentrant_return_step G cfg hg v ⟨n+1, envAt G cfg [walk v] (n+1)⟩
       (fun _ t => ⟨tag n v, C05_reentrant_return G cfg hg v n t⟩) tr
 
+/-! ## nothing survives an iteration -/
+
+/-- **Iteration independence.** A loop `for (… k times …) { body }` executed by the activation of level `n` of any
+program, for every body (any nesting of try / catch / finally, throws, returns, jumps, host panics, calls of named
+functions that recurse to any depth), every pending catch variable and every trace so far: run the body once from
+the *empty* trace — it ends with outcome `o` after the events `ext` — then the loop is `o`, `ext` repeated
+(`repeatIter`: next iteration on normal / continue, stop on break, hand on anything else). No iteration can tell how
+many came before it: no state survives a statement in the model. A real run whose n-th iteration departs from its
+first therefore breaks the correspondence — that is how a resource of the interpreter that is not restored on some
+exit path (a counter, a stack, a lock) is found, after however many iterations it takes. -/
+theorem C05_iteration_independence (G : Graph) (cfg : Cfg) (hg : cfg.guarded = true) (fns : List Block) (n : Nat)
+    (cur : Option Thrown) (k : Nat) (body : Block) (tr : List Ev) :
+    exec G cfg cur (actAt G cfg fns n) (.loop k body) tr =
+      repeatIter (execB G cfg cur (actAt G cfg fns n) body []).1 (execB G cfg cur (actAt G cfg fns n) body []).2 k tr := by
+  have hu := (execB_uni G cfg hg (actAt G cfg fns n) (envAt_uni G cfg hg fns n) body cur).at_nil
+  simp only [exec]
+  exact loopN_repeat (step := fun t => execB G cfg cur (actAt G cfg fns n) body t) hu k tr
+
+/-- **The n-th iteration behaves like the first.** Whatever the first `j` iterations of the loop left in the trace,
+the next iteration of the body ends the way the first one (started from nothing) ends and appends the same events —
+same handler (`caught i k x` is one of the events), same number of `enterFinally`. -/
+theorem C05_nth_iteration_like_first (G : Graph) (cfg : Cfg) (hg : cfg.guarded = true) (fns : List Block) (n : Nat)
+    (cur : Option Thrown) (body : Block) (j : Nat) (tr : List Ev) :
+    let step := fun t => execB G cfg cur (actAt G cfg fns n) body t
+    step (loopN step j tr).2 = ((step []).1, (loopN step j tr).2 ++ (step []).2) :=
+  (execB_uni G cfg hg (actAt G cfg fns n) (envAt_uni G cfg hg fns n) body cur).at_nil _
+
+/-- when an iteration ends normally or with `continue`, `k` iterations append its events `k` times and the loop
+ends normally: handler identity and finally count are the same in every iteration -/
+theorem C05_iterations_alike (G : Graph) (cfg : Cfg) (hg : cfg.guarded = true) (fns : List Block) (n : Nat)
+    (cur : Option Thrown) (k : Nat) (body : Block) (tr ext : List Ev) (o : Out) (ho : o = .normal ∨ o = .cont)
+    (hfirst : execB G cfg cur (actAt G cfg fns n) body [] = (o, ext)) :
+    exec G cfg cur (actAt G cfg fns n) (.loop k body) tr = (.normal, tr ++ (List.replicate k ext).flatten) := by
+  rw [C05_iteration_independence G cfg hg fns n cur k body tr, hfirst]
+  have : ∀ k tr, repeatIter o ext k tr = (.normal, tr ++ (List.replicate k ext).flatten) := by
+    intro k
+    induction k with
+    | zero => intro tr; simp [repeatIter]
+    | succ k ih =>
+      intro tr
+      rcases ho with rfl | rfl <;> simp [repeatIter, ih, List.replicate_succ]
+  exact this k tr
+
+/-- **Long runs.** A program whose top level is one loop is evaluated by running the body once and repeating it
+(`runLoop`, what the driver answers for the long-running correspondence programs): the same as `run`. -/
+theorem C05_long_run (G : Graph) (cfg : Cfg) (hg : cfg.guarded = true) (fns : List Block) (body : Block) (k d : Nat) :
+    run G cfg ⟨fns, .cons (.loop k body) .nil, d⟩ = runLoop G cfg fns body k d := by
+  have hs : ∀ tr, execB G cfg none (actAt G cfg fns d) (.cons (.loop k body) .nil) tr =
+      exec G cfg none (actAt G cfg fns d) (.loop k body) tr := by
+    intro tr
+    rw [execB]
+    split
+    · rename_i tr' heq; rw [execB, heq]
+    · rfl
+  simp only [run, runLoop, hs, C05_iteration_independence G cfg hg fns d none k body []]
+
+/-! ## what the model leaves out: resources entered on the call path are left on every exit path
+
+`Model.Exc` has no call-depth counter and no locks. `Generated.C05Pairs` (regenerated from `node/`, `runtime/`,
+`data/` on every run) lists every Go function that enters a paired operation and how it leaves it. -/
+
+open Model.ExcPairs in
+/-- a site that passes `siteOK` gives the resource back on every exit path: return of a value, return of a control
+(a propagating exception, break, continue, return), and — where the Leave is deferred — a Go panic -/
+theorem C05_paired_restored (s : Site) (hok : siteOK s = true) (e : Exit)
+    (he : s.mode = .deferred ∨ e ≠ .goPanic) (d : Nat) : after s e d = d := by
+  rcases s with ⟨file, fn, en, lv, mode, ub, rs⟩
+  cases mode
+  · simp [after]
+  · cases e with
+    | goPanic => simp at he
+    | returnAt l =>
+      simp only [siteOK, Bool.and_eq_true, List.isEmpty_iff] at hok
+      simp [after, hok.1]
+  · simp [siteOK] at hok
+
+open Model.ExcPairs in
+/-- hence no drift: after any number of executions the resource is where it was — the iterations of a loop start
+from the same interpreter state, as `C05_iteration_independence` takes for granted -/
+theorem C05_paired_no_drift (s : Site) (hok : siteOK s = true) (e : Exit)
+    (he : s.mode = .deferred ∨ e ≠ .goPanic) : ∀ (n d : Nat), afterN s e n d = d
+  | 0, d => rfl
+  | n+1, d => by rw [afterN, C05_paired_restored s hok e he d]; exact C05_paired_no_drift s hok e he n d
+
+open Model.ExcPairs in
+/-- … and a site that misses the Leave on one exit drifts by one per execution left that way, so that whatever the
+limit of the recursion guard, after enough iterations every further call is refused -/
+theorem C05_leak_drifts (s : Site) (e : Exit) (hleak : ∀ d, after s e d = d + 1) :
+    (∀ (n d : Nat), afterN s e n d = d + n) ∧ ∀ limit d, ∃ n, refused limit (afterN s e n d) = true := by
+  have h : ∀ (n d : Nat), afterN s e n d = d + n := by
+    intro n
+    induction n with
+    | zero => intro d; rfl
+    | succ n ih => intro d; rw [afterN, hleak, ih]; omega
+  exact ⟨h, fun limit d => ⟨limit, by simp [refused, h]; omega⟩⟩
+
+/-- **The regenerated obligation.** In the tree being checked every function of `node/`, `runtime/`, `data/` that
+enters a paired operation (`EnterCall`/`LeaveCall` of the method-call recursion guard, locks, any `Enter…/Leave…`,
+`Push…/Pop…`, `Begin…/End…`, `Acquire…/Release…` pair) defers the Leave, or — where no script code runs in between —
+leaves on every return; the recursion guard of `ClassMethod.Call` is still there; the counter operations cancel. -/
+theorem C05_call_path_pairs_balanced :
+    Generated.C05Pairs.sites.all Model.ExcPairs.siteOK = true ∧
+    Generated.C05Pairs.shapeChanged = [] ∧
+    Model.ExcPairs.countersCancel Generated.C05Pairs.counters = true := by decide
+
 /-! ## refinement -/
 
 /-- **The model is PHP.** For every program — any named functions, any depth of recursion — the repaired interpreter
@@ -373,6 +481,27 @@ example : goodP 1 (.ofBlock exLoop) = true := by decide
 example : proj 0 1 (run exG Cfg.fixed (.ofBlock exLoop)).2 =
     [.enterTry 0 1, .enterFinally 0 1, .enterTry 0 1, .enterFinally 0 1, .enterTry 0 1, .enterFinally 0 1] := by decide
 example : mentionsB 1 (.cons .cont .nil) = false ∧ mentionsC 1 .nil = false := by decide
+-- iteration independence: the body of exLoop run once from nothing, and the loop as its repetition
+example : execB exG Cfg.fixed none (actAt exG Cfg.fixed [] 0) (.cons (.try_ 1 (.cons .cont .nil) .nil true (.cons (.echo 1) .nil)) .nil) [] =
+    (.cont, [.enterTry 0 1, .enterFinally 0 1, .echo 0 1]) := by decide
+example : run exG Cfg.fixed (.ofBlock exLoop) = runLoop exG Cfg.fixed [] (.cons (.try_ 1 (.cons .cont .nil) .nil true (.cons (.echo 1) .nil)) .nil) 3 0 := by
+  decide
+-- a throw out of a call, caught by the second clause, finally: one iteration, and 2 000 of them by the theorem
+def exIterBody : Block :=
+  .cons (.try_ 1 (.cons (.call (.cons (.throw 4 1) .nil)) .nil) exCatches true (.cons (.echo 9) .nil)) .nil
+example : execB exG Cfg.fixed none top exIterBody [] =
+    (.normal, [.enterTry 0 1, .caught 0 1 1 (.obj 4 1), .echo 0 7, .enterFinally 0 1, .echo 0 9]) := by decide
+example : exec exG Cfg.fixed none top (.loop 2000 exIterBody) [] =
+    (.normal, [] ++ (List.replicate 2000 [.enterTry 0 1, .caught 0 1 1 (.obj 4 1), .echo 0 7, .enterFinally 0 1, .echo 0 9]).flatten) :=
+  C05_iterations_alike exG Cfg.fixed rfl [] 0 none 2000 exIterBody [] _ .normal (.inl rfl) (by decide)
+-- paired operations: the recursion guard as it is (deferred), and with the Leave missing on the throw path
+def exSiteDeferred : Model.ExcPairs.Site := ⟨"node/class.go", "ClassMethod.Call", "vm.EnterCall", "vm.LeaveCall", .deferred, [], true⟩
+def exSiteLeaky : Model.ExcPairs.Site := ⟨"node/class.go", "ClassMethod.Call", "vm.EnterCall", "vm.LeaveCall", .leaks, [492], true⟩
+example : Model.ExcPairs.siteOK exSiteDeferred = true ∧ Model.ExcPairs.siteOK exSiteLeaky = false := by decide
+example : Model.ExcPairs.afterN exSiteDeferred .goPanic 600 0 = 0 := C05_paired_no_drift exSiteDeferred rfl .goPanic (.inl rfl) 600 0
+example : ∀ d, Model.ExcPairs.after exSiteLeaky (.returnAt 492) d = d + 1 := fun d => by simp [Model.ExcPairs.after, exSiteLeaky]
+example : Model.ExcPairs.refused 500 (Model.ExcPairs.afterN exSiteLeaky (.returnAt 492) 500 0) = true := by
+  rw [(C05_leak_drifts exSiteLeaky (.returnAt 492) (fun d => by simp [Model.ExcPairs.after, exSiteLeaky])).1]; decide
 -- refinement: the closure-based rule set of the driver agrees with the model on the example
 example : run exG Cfg.fixed (.ofBlock (.cons (.try_ 1 (.cons (.throw 4 1) .nil) exCatches true (.cons (.echo 9) .nil)) .nil)) =
     Spec.Exc.run (Spec.Exc.rulesOf exG) (.ofBlock (.cons (.try_ 1 (.cons (.throw 4 1) .nil) exCatches true (.cons (.echo 9) .nil)) .nil)) := by
